@@ -89,12 +89,31 @@ func (api *HTTP) getMessages(ctx context.Context, lastSeen robust.Id, msgschan c
 	// Id=1431542836610113945.
 	// Hence, we need to Get(1431542836610113945.2) to send
 	// 1431542836610113945.3 and following to the client.
-	if msgs, ok := api.output().Get(lastSeen); ok && int(lastSeen.Reply) < len(msgs) {
+	//
+	// This node might not have applied the message with
+	// Id=1431542836610113945 yet (e.g. it is a follower which lags behind
+	// the node the client was connected to before). In that case, the
+	// remainder is sent as soon as a more recent message shows up, i.e. once
+	// the message in question must have been applied.
+	remainderPending := true
+	sendRemainder := func() bool {
+		msgs, ok := api.output().Get(lastSeen)
+		if !ok {
+			return true
+		}
+		remainderPending = false
+		if int(lastSeen.Reply) >= len(msgs) {
+			return true
+		}
 		select {
 		case <-ctx.Done():
-			return
+			return false
 		case msgschan <- outputToRobustMessages(msgs[lastSeen.Reply:]):
 		}
+		return true
+	}
+	if !sendRemainder() {
+		return
 	}
 
 	for {
@@ -116,6 +135,13 @@ func (api *HTTP) getMessages(ctx context.Context, lastSeen robust.Id, msgschan c
 			// Prevent busylooping while new messages are applied.
 			time.Sleep(250 * time.Millisecond)
 			continue
+		}
+
+		if remainderPending {
+			if !sendRemainder() {
+				return
+			}
+			remainderPending = false
 		}
 
 		lastSeen = msgs[0].Id
